@@ -1,0 +1,32 @@
+//go:build verif
+
+package lossy
+
+// Hook for the verification harness (suite vp8dec, property C04): the loop-filter
+// strength table of the decoder as a function of the header fields it depends on.
+
+// VerifFilterStrengths runs precomputeFilterStrengths on a fresh Decoder whose
+// filter and segment headers hold the given values; filterType is set the way
+// parseFilterHeader sets it.
+func VerifFilterStrengths(level, sharpness int, useLFDelta bool, ref0, mode0 int,
+	useSegment, absoluteDelta bool, filterStrength [NumMBSegments]int8, simple bool) [NumMBSegments][2]FInfo {
+	dec := &Decoder{}
+	dec.filterHdr.Simple = simple
+	dec.filterHdr.Level = level
+	dec.filterHdr.Sharpness = sharpness
+	dec.filterHdr.UseLFDelta = useLFDelta
+	dec.filterHdr.RefLFDelta[0] = ref0
+	dec.filterHdr.ModeLFDelta[0] = mode0
+	dec.segHdr.UseSegment = useSegment
+	dec.segHdr.AbsoluteDelta = absoluteDelta
+	dec.segHdr.FilterStrength = filterStrength
+	if level == 0 {
+		dec.filterType = 0
+	} else if simple {
+		dec.filterType = 1
+	} else {
+		dec.filterType = 2
+	}
+	dec.precomputeFilterStrengths()
+	return dec.fstrengths
+}
